@@ -22,7 +22,8 @@ and `VersionType` checks (the root is a Maven concrete version); context cancell
 **Loops.** `Resolve`'s retry loop runs at most `maxRetries` extra passes: structural
 recursion on that constant (`retry`). The breadth-first `for len(todo) > 0` loop takes
 fuel (`loop`); the driver supplies `Universe.fuel` (every pass pops each created node
-once and a node is a distinct version of the universe).
+once and a node is a distinct version of the universe: `Props.C07.resolve_terminates`
+proves that this fuel is never exhausted).
 -/
 
 namespace DepsDev.Resolve.Maven
@@ -223,6 +224,16 @@ def packageKeyForDependency (name : Bytes) (t : DepType) : PackageKey :=
     typ := match t.getAttr C07Consts.keyArtifactType with
       | some ty => if ty != C07Consts.defaultArtifactType then ty else []
       | none => [] }
+
+/-- The artifact key with default classifier and type. -/
+def defaultKey (name : Bytes) : PackageKey := { name := name, classifier := [], typ := [] }
+
+/-- Hypothesis of `Props.C07.m1_partial` (its negation classifies F-C07-classifier): every
+declaration of the universe has the default classifier and type ("jar" counts as default).
+Tied to the harness's classifier by the correspondence op `defaultkeys`. -/
+def DefaultKeys (u : Universe) : Bool :=
+  u.pkgs.all fun p => p.versions.all fun v => v.imports.all fun d =>
+    packageKeyForDependency d.name d.typ == defaultKey d.name
 
 structure Node where
   vk : VK
